@@ -49,6 +49,8 @@ pub enum Act {
     ControlReset,
     /// write on the session stream (raw peer's send half)
     OnSession(Vec<u8>),
+    /// write on the session stream, then finish it
+    OnSessionFin(Vec<u8>),
     /// the control stream's very first bytes are replaced by these (instead of SETTINGS)
     ControlStartsWith(Vec<u8>),
     /// open two uni streams with these bytes each
@@ -121,6 +123,11 @@ pub fn table() -> Vec<Scenario> {
         Scenario { name: "settings-on-session-stream", cite: "RFC 9114 §7.2.4", established: true, roles: BOTH, act: Act::OnSession(valid_settings.clone()), expect: Expect::ConnClose(vec![H3_FRAME_UNEXPECTED]) },
         Scenario { name: "wt-signal-on-session-stream", cite: "draft-ietf-webtrans-http3 §4.2", established: true, roles: BOTH, act: Act::OnSession(h3::wt_bidi_preamble(0)), expect: Expect::ConnClose(vec![H3_FRAME_ERROR, H3_FRAME_UNEXPECTED]) },
         Scenario { name: "grease-and-unknown-capsule-on-session-stream", cite: "RFC 9297 §3.2: unknown capsule types MUST be silently skipped", established: true, roles: BOTH, act: Act::OnSession([h3::frame(h3::grease(6), b"g"), h3::frame(h3::FRAME_DATA, &refcodec::capsule::encode(0x1f * 7 + 0x17, b"cap"))].concat()), expect: Expect::Alive },
+        Scenario { name: "session-frame-cut-by-fin-in-header", cite: "RFC 9114 §7.1: a frame truncated by the end of the stream is H3_FRAME_ERROR", established: true, roles: BOTH, act: Act::OnSessionFin(vec![0x40]), expect: Expect::ConnClose(vec![H3_FRAME_ERROR]) },
+        Scenario { name: "session-frame-cut-by-fin-in-length", cite: "RFC 9114 §7.1", established: true, roles: BOTH, act: Act::OnSessionFin(vec![0x00, 0x40]), expect: Expect::ConnClose(vec![H3_FRAME_ERROR]) },
+        Scenario { name: "session-frame-cut-by-fin-in-payload", cite: "RFC 9114 §7.1", established: true, roles: BOTH, act: Act::OnSessionFin(h3::frame_declared(h3::FRAME_DATA, 20, b"half")), expect: Expect::ConnClose(vec![H3_FRAME_ERROR]) },
+        Scenario { name: "session-unknown-frame-cut-by-fin", cite: "RFC 9114 §7.1 (unknown types are skipped whole, a truncated one is still truncated)", established: true, roles: BOTH, act: Act::OnSessionFin(h3::frame_declared(h3::grease(3), 300, &[7u8; 256])), expect: Expect::ConnClose(vec![H3_FRAME_ERROR]) },
+        Scenario { name: "session-unknown-frame-cut-by-fin-after-header", cite: "RFC 9114 §7.1", established: true, roles: BOTH, act: Act::OnSessionFin(h3::frame_declared(h3::grease(3), 300, &[])), expect: Expect::ConnClose(vec![H3_FRAME_ERROR]) },
     ];
     let _ = &mut t;
     t
@@ -192,6 +199,13 @@ async fn act(live: &mut Live, a: &Act) -> Result<Option<quinn::SendStream>, Stri
             let r = s.write_all(bytes).await.map_err(|e| e.to_string());
             live.sess_send = Some(s);
             r.map(|_| None)
+        }
+        Act::OnSessionFin(bytes) => {
+            let mut s = live.sess_send.take().ok_or("session stream taken")?;
+            let r = s.write_all(bytes).await.map_err(|e| e.to_string());
+            let f = s.finish().map_err(|e| e.to_string());
+            live.sess_send = Some(s);
+            r.and(f).map(|_| None)
         }
         Act::ControlStartsWith(_) => Err("ControlStartsWith is handled at establishment".into()),
     }
